@@ -1722,3 +1722,58 @@ func helperReturnDefs(pk *packages.Package, env *provEnv, call *ast.CallExpr) []
 	})
 	return out
 }
+
+// ruleSchemeURLVerbatim (C19): the http transport is handed the routing tag's URL as it was given:
+// the "url" entry of the receiver data built by schemeToRecv is the String() of the very value
+// url.Parse returned for the tag (or the tag itself) — not a URL rebuilt from some of its parts,
+// which silently drops the query, the user info or the fragment the address was given with.
+func ruleSchemeURLVerbatim(c *Ctx) {
+	pk := c.P.Pkg(pkgSender)
+	fd := funcDecl(pk, "", "schemeToRecv")
+	key := "sender/scheme-url-verbatim"
+	if fd == nil {
+		c.und(key, 0, "schemeToRecv not found")
+		return
+	}
+	info := pk.TypesInfo
+	env := newLocalEnv(pk, fd, nil)
+	par := paramObjOf(info, fd.Type, 0)
+	n, ok := 0, true
+	var at token.Pos = fd.Pos()
+	what := ""
+	ast.Inspect(fd.Body, func(nd ast.Node) bool {
+		kv, isKV := nd.(*ast.KeyValueExpr)
+		if !isKV {
+			return true
+		}
+		if k, isLit := ast.Unparen(kv.Key).(*ast.BasicLit); !isLit || strings.Trim(k.Value, "\"`") != "url" {
+			return true
+		}
+		n++
+		v := ast.Unparen(kv.Value)
+		good := false
+		if isObj(info, v, par) {
+			good = true
+		}
+		if call, isCall := v.(*ast.CallExpr); isCall && len(call.Args) == 0 {
+			if se, isSel := ast.Unparen(call.Fun).(*ast.SelectorExpr); isSel && se.Sel.Name == "String" {
+				if id, isId := ast.Unparen(se.X).(*ast.Ident); isId {
+					for _, d := range env.defs[info.Uses[id]] {
+						if as, isAs := d.(*ast.AssignStmt); isAs && len(as.Rhs) == 1 {
+							if pc, isPC := ast.Unparen(as.Rhs[0]).(*ast.CallExpr); isPC && calleeName(info, pc) == "url.Parse" && len(pc.Args) == 1 && isObj(info, pc.Args[0], par) && len(env.defs[info.Uses[id]]) == 1 {
+								good = true
+							}
+						}
+					}
+				}
+			}
+		}
+		if !good {
+			ok = false
+			at = kv.Pos()
+			what = exprString(kv.Value)
+		}
+		return true
+	})
+	c.check(n >= 1 && ok, key, at, "the http receiver's url is the parsed tag's own String()", "schemeToRecv hands the http transport "+what+" instead of the URL the routing tag gave (the String() of url.Parse's own result): parts of the address (query, user info, fragment) are dropped and the message is posted elsewhere")
+}
